@@ -392,3 +392,19 @@ func Stuck(n gen.Node, pid gen.PID) (bool, string) {
 	b, s := read()
 	return b, s
 }
+
+// Terminated reports whether the terminate callback of process pid (an instrumented
+// behaviour with the given label) has completed. unregisterProcess - the release of
+// names, aliases, events and relations - has finished by then; the disappearance from
+// the process table alone only marks its beginning.
+func (p *Probe) Terminated(label string, pid gen.PID) bool {
+	p.mu.Lock()
+	defer p.mu.Unlock()
+	for i := len(p.events) - 1; i >= 0; i-- {
+		e := p.events[i]
+		if e.Kind == "terminate" && e.Proc == label && e.PID == pid {
+			return true
+		}
+	}
+	return false
+}
